@@ -48,9 +48,14 @@ def scenario(sc):
             before = read_state(out)
             rc, err = run_child(a)
             after = read_state(out)
+            try:
+                executed = int(open(out + '.executed').read())
+                os.remove(out + '.executed')
+            except Exception:
+                executed = None
             leftovers = sorted(f for f in os.listdir(tmp) if f != os.path.basename(out))
             steps.append({'args': {k: v for k, v in a.items() if k != 'out'}, 'rc': rc, 'stderr': err if rc not in (0, 9) else '',
-                          'before': before, 'after': after, 'leftovers': leftovers})
+                          'before': before, 'after': after, 'leftovers': leftovers, 'executed': executed})
         return {'gz': sc['gz'], 'steps': steps}
 
 
